@@ -154,6 +154,11 @@ fn check_structure(case: &CodeCase, p: &mut Probe) -> Check {
         let _ = guarded(|| ldpc_toolbox::codes::dvbs2::Code::R8_9short.h().girth_with_max(8));
         let g = guarded(|| h.girth()).map_err(|e| Fail::new("panic", format!("{name}: girth() panicked (after girth searches on two short-frame codes on the same thread): {e}")))?;
         ensure!(g == Some(6), "girth-library", "{name}: SparseMatrix::girth() = {g:?}, documented 6 (after girth searches on two short-frame codes on the same thread)");
+        // the bounded query: the girth is reported under every bound that admits it, and only then
+        for (b, want) in [(6usize, Some(6usize)), (8, Some(6)), (4, None)] {
+            let gb = guarded(|| h.girth_with_max(b)).map_err(|e| Fail::new("panic", format!("{name}: girth_with_max({b}) panicked: {e}")))?;
+            ensure!(gb == want, "girth-library", "{name}: SparseMatrix::girth_with_max({b}) = {gb:?}; the documented girth is 6, so the answer is {want:?}");
+        }
     }
     p.nontrivial();
     p.inner += n as u64;
@@ -226,7 +231,7 @@ fn check_encoder(case: &EncCase, p: &mut Probe) -> Check {
             let msg: Vec<u8> = (0..k)
                 .map(|_| {
                     sd = splitmix(sd);
-                    if t == 0 { 1 } else { (sd & 1) as u8 }
+                    if t == 0 { 1 } else if t == 1 { 0 } else { (sd & 1) as u8 }
                 })
                 .collect();
             let arr = Array1::from_iter(msg.iter().map(|&b| if b == 1 { GF2::one() } else { GF2::zero() }));
@@ -309,14 +314,14 @@ pub fn property() -> Property {
         subs: vec![
             Box::new(EnumSub {
                 name: "structure",
-                rule: "exhaustive over the 21 code identifiers: dimensions against the harness's own copy of Tables 5a/5b; q = (n-k)/360; quasi-cyclic law for every group and every j in 1..360 (column = previous column shifted by q mod n-k, as sets); column-degree profile of the standard; exact dual-diagonal parity part; own 4-cycle search (row pairs sharing two columns); own bounded girth = 6 for normal 1/2 (all codes in thorough) and SparseMatrix::girth() = 6 on normal 1/2 (asked on a thread that has just searched the girth of two short-frame codes); equality, column by column, with an own re-expansion (section 5.3.2.1) of the pinned address tables and equality of the SHA-256 of the canonical edge list with the pinned digest; inner = columns examined",
+                rule: "exhaustive over the 21 code identifiers: dimensions against the harness's own copy of Tables 5a/5b; q = (n-k)/360; quasi-cyclic law for every group and every j in 1..360 (column = previous column shifted by q mod n-k, as sets); column-degree profile of the standard; exact dual-diagonal parity part; own 4-cycle search (row pairs sharing two columns); own bounded girth = 6 for normal 1/2 (all codes in thorough) and SparseMatrix::girth() = 6, girth_with_max(b) = 6 for b = 6, 8 and None for b = 4 on normal 1/2 (asked on a thread that has just searched the girth of two short-frame codes); equality, column by column, with an own re-expansion (section 5.3.2.1) of the pinned address tables and equality of the SHA-256 of the canonical edge list with the pinned digest; inner = columns examined",
                 cases: code_cases,
                 check: check_structure,
                 exhaustive: true,
             }),
             Box::new(EnumSub {
                 name: "encoder",
-                rule: "on a thread that has just built encoders for three small matrices whose parity part is nearly a staircase: all 21 codes in ascending order of n-k: Encoder::from_h succeeds and its Debug rendering shows the staircase variant (linear time, no dense elimination; if a renamed variant hides it, building the encoder must cost less than 15 times the construction of the matrix); 8 (thorough 200) messages per code (all-ones + pseudo-random from VERIF_SEED): systematic prefix and own H c = 0; inner = encoded messages",
+                rule: "on a thread that has just built encoders for three small matrices whose parity part is nearly a staircase: all 21 codes in ascending order of n-k: Encoder::from_h succeeds and its Debug rendering shows the staircase variant (linear time, no dense elimination; if a renamed variant hides it, building the encoder must cost less than 15 times the construction of the matrix); 8 (thorough 200) messages per code (all-ones, all-zero + pseudo-random from VERIF_SEED): systematic prefix and own H c = 0; inner = encoded messages",
                 cases: enc_cases,
                 check: check_encoder,
                 exhaustive: true,
